@@ -11,7 +11,11 @@ CONSUMER = ("handler", "pre", "post", "wrap-start")
 
 
 def usable(spec):
-    return bool(spec) and all(k in spec for k in ("ctors", "handlers", "mws", "bp", "types"))
+    # only the families whose specs are plain gen_app specs: the planted-violation family (C08) renders components
+    # outside the spec, the errors family (C06) gives inputs to error handlers, the routes family (C07) has its own
+    # request scripts; those are judged by their own checks
+    return bool(spec) and all(k in spec for k in ("ctors", "handlers", "mws", "bp", "types")) and \
+        str(spec.get("klass")).split(":")[0] in ("free", "inclass", "scopes", "own", "mw", "names")
 
 
 def parse_line(line, mod):
